@@ -177,6 +177,14 @@ TEMPLATES = [
     "y[%(A)s]", "y[%(A)s] = %(B)s", "y[%(A)s] += %(B)s", "%(A)s |. %(B)s", "%(A)s -. %(B)s", "%(A)s || %(B)s", "%(A)s group_all %(B)s",
     "memoize(\\p -> 1)(%(A)s)", "%(A)s !? %(B)s", "dict([[%(A)s, %(B)s]])", "remove y[%(A)s]",
     "repeat(7)[%(A)s:%(B)s]", "repeat(7)[%(A)s]", "(1 to 5)[%(A)s:%(B)s]",
+    # operator patterns with arbitrary constants and arbitrary matched values (a pattern that cannot be inverted must refuse)
+    "%(A)s * p = %(B)s", "p * %(A)s = %(B)s", "%(A)s + p = %(B)s", "p + %(A)s = %(B)s", "p - %(A)s = %(B)s", "p / q = %(A)s", "-p = %(A)s",
+    "p .+ q = %(A)s", "q +. p = %(A)s", "%(A)s < p < %(B)s = %(C)s", "switch (%(A)s) case %(B)s * p -> p case _ -> 0",
+    "switch (%(A)s) case %(B)s + p -> p case p .+ q -> q case _ -> 0", "(\\(%(A)s * p) -> p)(%(B)s)", "for (%(A)s * p <- %(B)s) p",
+    "a, (b: %(A)s) = %(B)s", "%(A)s or p = %(B)s", "literally %(A)s = %(B)s",
+    # closed-form lengths of large enumerations
+    "len(permutations(1 to 25))", "len(permutations(1 to 20))", "len(subsequences(1 to 70))", "len(subsequences(1 to 62))", "len((1 to 9) ^^ 30)",
+    "len(permutations(\"abcdefghijklmnopqrstuvwxyz\"))",
 ] + [
     # infinite streams other than repeat: only bounds that do not ask for the end of the stream (a negative bound or a huge
     # count is a non-terminating / resource request, outside the property)
@@ -191,7 +199,8 @@ OPS = ["+", "-", "*", "/", "%", "//", "%%", "/!", "^", "&", "|", "~", "<<", ">>"
        "||", "&&", "--", "|.", "zip", "til", "to", "$", ".*", "!!", "!?", "in"]
 SMALL_OPERANDS = ["0", "1", "2", "3", "4", "(0-1)", "5", '"é"', '"€uro"', '"k"', "[0]", "[1, 1]", "(0-5)", "(2^63-1)", "(0-2^63)", "2^64", "(1/2)", "1.5", "(0.0/0.0)", "(1.0/0.0)", "(1+2i)", '""', '"a"', '"héllo"',
                   "[]", "[1, 2, 3]", "[[1, 2], [3]]", '["a"]', "{}", '{"a": 1}', "{:0}", "V()", "V(1, 2)", 'B""', "B[255]", "(1 to 3)", "(1 to 0)", "null",
-                  "id", "(+1)", "(\\p, q -> p)", "int", "str", "list", "x", "y", "len",
+                  "id", "(+1)", "(\\p, q -> p)", "int", "str", "list", "x", "y", "len", '"\\u{D7FF}"', '"\\u{E000}"', '"\\u{10FFFF}"', '"\\0"',
+                  '"1e-9"', '"1/0.0"', '"1.5/0"', '"2.50"', '"-0"', '"0x10"',
                   "{1: len}", "[{1: id}]", "{1: 1 to 3}", "(2^64 - 2^64)", "(1 // 2)", "(1 >> 3)"]
 
 
